@@ -83,7 +83,7 @@ def parse_spec(text: str, lazy: bool = False):
 
 def build_search(s: list):
     from fandango.language.search import (AttributeSearch, DescendantAttributeSearch, ItemSearch, LengthSearch,
-                                          RuleSearch, StarSearch)
+                                          RuleSearch, SelectiveSearch, StarSearch)
     from fandango.language.symbols import NonTerminal
     tag = s[0]
     if tag == "rule":
@@ -95,6 +95,11 @@ def build_search(s: list):
     if tag == "item":
         sl = [x[1] if x[0] == "idx" else slice(x[1], x[2], x[3]) for x in s[2]]
         return ItemSearch(build_search(s[1]), sl)
+    if tag == "sel":
+        def one(x):
+            return None if x is None else (x[1] if x[0] == "idx" else slice(x[1], x[2], x[3]))
+        return SelectiveSearch(build_search(s[1]), [(NonTerminal(sym), bool(d)) for sym, d, _ in s[2]],
+                               [one(it) for _, _, it in s[2]])
     if tag == "star":
         return StarSearch(build_search(s[1]))
     if tag == "len":
